@@ -9,5 +9,6 @@ CONSTANTS
   FixD10 = TRUE
   FixD15 = TRUE
   FixD18 = TRUE
-INVARIANTS Inv_AnsweredTruthfully Inv_OkMeansServed Inv_InvalidRefused Inv_NoBlockingSendUnderLock EmitCase
+  AtomicCreate = TRUE
+INVARIANTS Inv_AnsweredTruthfully Inv_OkMeansServed Inv_InvalidRefused Inv_NoBlockingSendUnderLock Inv_OneRouterPerTopic EmitCase
 CHECK_DEADLOCK FALSE
